@@ -37,7 +37,7 @@ class Typed:
                 self._flat[tname] = None
         return self._flat[tname]
 
-    def field_at(self, tname, off):
+    def field_at(self, tname, off, fold=True):
         ff = self.flat(tname)
         if not ff:
             return None
@@ -45,6 +45,16 @@ class Typed:
         for nm, o, sz, f in ff:
             if sz and o <= off < o + sz and not ('sub' in f and 'count' not in f):
                 best = (nm, off - o, sz, f)
+        if fold and best and 'sub' in best[3] and best[3].get('count') and best[3].get('elemsize'):
+            # array of records (ldata[lane]): resolve the member inside one element, whatever the lane
+            nm, rel, sz, f = best
+            rel %= f['elemsize']
+            inner = None
+            for n2, o2, sz2, f2 in cf.flat_fields({'fields': f['sub']}):
+                if sz2 and o2 <= rel < o2 + sz2 and not ('sub' in f2 and 'count' not in f2):
+                    inner = ('%s[].%s' % (nm, n2), rel - o2, sz2, f2)
+            if inner:
+                return inner
         return best
 
     def offset_of(self, tname, field):
@@ -84,7 +94,8 @@ class Typed:
             if t is None or s['disp'] is None:
                 return {'what': 'arg', 'reg': b[1], 'type': t}
             off = b[2] + s['disp']
-            fa = self.field_at(t, off)
+            # array-relative offsets (no folding into one element): rows / lanes addressed by constant displacements stay distinct
+            fa = self.field_at(t, off, fold=False)
             return {'what': 'arg', 'reg': b[1], 'type': t, 'off': off, 'field': fa[0] if fa else None, 'rel': fa[1] if fa else None}
         if b[0] == 'L':
             # pointer loaded from [E reg + k (+ index)]
